@@ -43,14 +43,16 @@ ResultAgrees(e, exp) ==
 
 ContentOK(e) ==
   LET exp == Run(e.words, e.script)
-      \* TrailingPartialWord rejected (see ResultAgrees): then the parse did not reach finalize
-      rejectedTail == exp.end[1] = "complete" /\ e.tail > 0 /\ e.result[1] = "Err"
-      want == IF rejectedTail /\ Len(exp.calls) >= 1 /\ exp.calls[Len(exp.calls)].n = "finalize"
-              THEN SubSeq(exp.calls, 1, Len(exp.calls) - 1) ELSE exp.calls
+      n == Len(exp.calls)
+      \* TrailingPartialWord rejected (see ResultAgrees): 1-3 bytes follow the last instruction and the parser reports
+      \* them as a parse error instead of calling finalize (whatever the consumer would have answered there)
+      rejectedTail == /\ e.tail > 0 /\ e.result[1] = "Err" /\ e.result[2] \notin {"ConsumerStopRequested", "ConsumerError"}
+                      /\ n >= 1 /\ exp.calls[n].n = "finalize"
+      want == IF rejectedTail THEN SubSeq(exp.calls, 1, n - 1) ELSE exp.calls
   IN
   /\ Len(e.calls) = Len(want)
   /\ \A j \in 1..Len(want) : CallAgrees(e.calls[j], want[j], e.words)
-  /\ ResultAgrees(e, exp)
+  /\ (rejectedTail \/ ResultAgrees(e, exp))
 
 \* Framing by word counts alone (no grammar): the 1-based word indexes at which instructions start, and
 \* the index after the last complete frame.  The walk stops at a zero count or a frame reaching past the end.
